@@ -65,6 +65,12 @@ type FaultMenu struct {
 	PCTSteps   int
 }
 
+// ForceStrategy, when >= 0, replaces the strategy draw of DrawConfig (0-1 random
+// walk, 2-3 sticky, 4-5 partial-order sampling, 6-9 PCT). It exists for the
+// strategy comparison of tools/strategy_eval.py (VERIF_STRATEGY) and is never set
+// by a registered check.
+var ForceStrategy = -1
+
 // DrawConfig draws a swarm configuration for one run.
 func DrawConfig(r *simrt.Rand, m FaultMenu) simrt.Config {
 	cfg := simrt.Config{MaxSteps: m.MaxSteps, StopOnPanic: true}
@@ -79,18 +85,32 @@ func DrawConfig(r *simrt.Rand, m FaultMenu) simrt.Config {
 		}
 		return cfg
 	}
-	switch r.Intn(10) {
-	case 0, 1, 2:
+	pick := r.Intn(10)
+	if ForceStrategy >= 0 {
+		pick = ForceStrategy
+	}
+	switch pick {
+	case 0, 1:
 		cfg.Strategy = simrt.StratRandom
-	case 3, 4, 5:
+	case 2, 3:
 		cfg.Strategy = simrt.StratSticky
 		cfg.StickyQ = []float64{0.5, 0.8, 0.95}[r.Intn(3)]
+	case 4, 5:
+		cfg.Strategy = simrt.StratPOS
 	default:
 		cfg.Strategy = simrt.StratPCT
 		cfg.PCTDepth = 1 + r.Intn(4)
 		cfg.PCTSteps = m.PCTSteps
 		if cfg.PCTSteps == 0 {
 			cfg.PCTSteps = 80
+		}
+		// the estimate of the run length that PCT places its priority change points
+		// in is itself a swarm knob: scenarios differ in length by an order of
+		// magnitude, and a fixed estimate would never put a change point late in a
+		// long run or densely in a short one
+		cfg.PCTSteps = cfg.PCTSteps * []int{1, 2, 4, 1, 1, 8}[r.Intn(6)] / []int{1, 1, 1, 2, 4, 1}[r.Intn(6)]
+		if cfg.PCTSteps < 4 {
+			cfg.PCTSteps = 4
 		}
 	}
 	if m.Stall && r.Intn(2) == 0 {
@@ -347,6 +367,7 @@ func RunWorker(h Harness, o WorkerOpts) (res WorkerResult) {
 		r := simrt.NewRand(RunSeed(o.Seed, h.ID(), i))
 		sc := h.Generate(r, o.Tier)
 		cfg := DrawConfig(r, menu)
+		st.Add("strategy."+cfg.Strategy.String(), 1)
 		races0 := 0
 		if o.RaceCheck != nil {
 			races0 = o.RaceCheck()
